@@ -25,14 +25,16 @@ def build(cmd_name, race=False, timeout=900):
     makes the unchanged case fast."""
     os.makedirs(BIN, exist_ok=True)
     out = os.path.join(BIN, cmd_name + ("-race" if race else ""))
-    args = ["go", "build", "-tags", "verif", "-o", out]
+    # -trimpath: the build cache key no longer depends on the directory of the repository copy, so scratch
+    # copies (mutants, seeded changes) reuse the cache instead of filling the disk
+    args = ["go", "build", "-trimpath", "-tags", "verif", "-o", out]
     alt = os.environ.get("VERIF_REPO")
     if alt:
         # development aid (mutant / fix trials on a scratch copy of the repository): same harness,
         # different replace target.  Registered MANIFEST commands never set this.
         import zlib; tag = str(zlib.crc32(os.path.abspath(alt).encode()))
         out = out + "-alt" + tag
-        args[5] = out
+        args[6] = out
         modfile = os.path.join(BIN, "alt%s.mod" % tag)
         with open(modfile, "w") as fh:
             fh.write("module verif/harness\n\ngo 1.20\n\nrequire github.com/tychoish/fun v0.0.0\n\n"
